@@ -1,4 +1,5 @@
 import SosModel.Codec
+import SosModel.SecretCodec
 namespace Sos.Drv.Codec
 open Sos Sos.Codec
 
@@ -9,6 +10,24 @@ def render (o : Out α) (enc : α → Bytes) (unmodelled : α → Bool := fun _ 
     else s!"ok {hexBytes (enc v)} rest={rest.length} alloc={o.alloc}"
   | .error => s!"error alloc={o.alloc}"
   | .panic => "panic"
+
+/-- order-insensitive summary of an encoding (tags and list items come out of hash sets / maps) -/
+def summary (e : Bytes) : String :=
+  let s1 := e.foldl (fun a x => a + x.toNat) 0
+  let s2 := e.foldl (fun a x => a + x.toNat * x.toNat) 0
+  s!"len={e.length} s1={s1} s2={s2}"
+
+/-- decode with every external parser accepting and with every one rejecting: the verdict is
+definite when both agree -/
+def renderExt (dec : Ext → Dec α) (enc : α → Bytes) (b : Bytes) : String :=
+  let yes := dec ⟨fun _ _ => true⟩ b
+  let no := dec ⟨fun _ _ => false⟩ b
+  match yes.res, no.res with
+  | .ok v rest, .ok _ _ => s!"ok {summary (enc v)} rest={rest.length} alloc={yes.alloc}"
+  | .error, .error => s!"error alloc={yes.alloc}"
+  | .panic, _ => "panic"
+  | _, .panic => "panic"
+  | _, _ => "extern"
 
 def step (args : List String) : String :=
   match args with
@@ -36,6 +55,9 @@ def step (args : List String) : String :=
       | "Summary" => render (readSummary b) encSummary
       | "SharedAccess" => render (readShared b) encShared (fun v => match v with | .write (_ :: _) => true | _ => false)
       | "Header" => render (readHeader b) encHeader (fun h => match h.shared with | .write (_ :: _) => true | _ => false)
+      | "Secret" => renderExt decodeSecret encSecret b
+      | "SecretRow" => renderExt decodeSRow encSRow b
+      | "SecretMeta" => renderExt decodeMeta encVals b
       | "Vault" => render (readVault b) encVault (fun v => match v.header.shared with | .write (_ :: _) => true | _ => false)
       | _ => "bad-op"
   | _ => "bad-op"
